@@ -426,7 +426,12 @@ func (ctx *Context) RegCustomDice(pattern string, handler CustomDiceHandler) err
 	if handler == nil {
 		return errors.New("自定义骰子回调不能为空")
 	}
-	re, err := regexp.Compile(pattern)
+	if _, err := regexp.Compile(pattern); err != nil {
+		return err
+	}
+	// 只接受从当前位置开始的匹配，因此直接锚定在开头: 不锚定时，当前位置不匹配的表达式会一直扫描到输入末尾，
+	// 每个操作数都如此，解析时间随输入长度平方增长
+	re, err := regexp.Compile("^(?:" + pattern + ")")
 	if err != nil {
 		return err
 	}
